@@ -24,7 +24,8 @@ func init() {
 	ruleText["R11.2"] = "in resizeFrame the slice stored into interp.frame.data is a fresh slice that is the destination of a copy from the old interp.frame.data, its length is the number of universe types, and the zero-initialising loop covers only universe.types[oldLen:]"
 	ruleText["R11.3"] = "every store into Interpreter.scopes[k] is guarded by the absence test of the same key"
 	ruleText["R11.5"] = "the frame captured by a closure value (the ancestor of the frames its calls create) is, on every path, the result of (*frame).clone taken when the closure value is created - also when the defining frame is the global frame"
-	ruleText["R11.6"] = "in (*Interpreter).gta every &symbol{kind: varSym, global: true} literal takes its index from a direct scope.add call, and no assignment targets the node field of a symbol (function symbols are installed as fresh literals)"
+	ruleText["R11.6"] = "in (*Interpreter).gta every &symbol{kind: varSym, global: true} literal takes its index from a direct scope.add call, and in the funcDecl case no assignment targets the node field of a symbol (function symbols are installed as fresh literals)"
+	ruleText["R11.7"] = "in genGlobalVarDecl the condition that makes a variable wait for a dependency d tests d's membership in a set filled from every element of the node list being ordered (for _, n := range nodes { set[n] = true })"
 	ruleText["R11.4"] = "each exported method of *Interpreter named Eval*/Compile*/Execute*/REPL reaches CompileAST, importSrc or Execute on the static call graph; gta, gtaRetry, cfg and genRun are called only from CompileAST, importSrc, Execute and the compile passes themselves"
 }
 
@@ -106,6 +107,7 @@ func runC11(c *Config, r *Report) {
 	c11R4(ic, r)
 	closureFrameCloned(ic, r, "R11.5")
 	c11R6(ic, r)
+	c11R7(ic, r, "R11.7")
 }
 
 func c11R2(ic *IC, r *Report) {
@@ -516,6 +518,21 @@ func c11R6(ic *IC, r *Report) {
 				nFunc++
 			}
 		case *ast.AssignStmt:
+			// only in the case of function declarations: a variable symbol may be completed
+			// (node, global) right after it has been created
+			inFuncCase := false
+			for _, p := range enclosingPath(fi.Decl.Body, x) {
+				if cc, ok := p.(*ast.CaseClause); ok {
+					for _, e := range cc.List {
+						if constName(e) == "funcDecl" {
+							inFuncCase = true
+						}
+					}
+				}
+			}
+			if !inFuncCase {
+				return true
+			}
 			for _, l := range x.Lhs {
 				if selField(ic.Info, l) == nodeFld {
 					r.Fail("R11.6", "gta/symbol-node-repointed", ic.pos(x.Pos()), "gta assigns the node of an existing symbol ("+types.ExprString(l)+"): callers compiled before a redefinition resolve the function through that symbol when their closures are generated, so redefining a function also changes functions that were not redefined")
@@ -529,4 +546,99 @@ func c11R6(ic *IC, r *Report) {
 		return
 	}
 	r.Pass("R11.6", "gta/symbol-node-repointed/none", ic.pos(fi.Decl.Pos()), fmt.Sprintf("%d function symbol literal(s); no store to symbol.node outside a literal", nFunc))
+}
+
+// c11R7: ordering the package variables of one evaluation must not wait for variables that
+// belong to an earlier evaluation. The dependency collector returns every package variable an
+// initialiser reaches, including those declared (and initialised) by previous Eval calls;
+// if the readiness test waits for them, `var b = a + 1` fed after `var a = 1` is rejected with
+// "variable definition loop". The readiness test must therefore be restricted to the batch
+// being ordered: its blocking condition mentions a set filled from every element of the
+// function's node list.
+func c11R7(ic *IC, r *Report, rule string) {
+	fi := ic.fn(r, "genGlobalVarDecl")
+	if fi == nil {
+		return
+	}
+	info := ic.Info
+	if fi.Decl.Type.Params == nil || len(fi.Decl.Type.Params.List) == 0 || len(fi.Decl.Type.Params.List[0].Names) == 0 {
+		r.Errorf("%s: genGlobalVarDecl has no parameter list", rule)
+		return
+	}
+	nodesParam := info.ObjectOf(fi.Decl.Type.Params.List[0].Names[0])
+	isNodeSet := func(o types.Object) bool {
+		if o == nil {
+			return false
+		}
+		m, ok := o.Type().Underlying().(*types.Map)
+		return ok && types.TypeString(m.Key(), nil) == "*github.com/traefik/yaegi/interp.node" && types.Identical(m.Elem(), types.Typ[types.Bool])
+	}
+	// sets filled from every element of the parameter: for _, n := range nodes { M[n] = true } (body of one statement)
+	batch := map[types.Object]bool{}
+	ast.Inspect(fi.Decl.Body, func(n ast.Node) bool {
+		rs, ok := n.(*ast.RangeStmt)
+		if !ok {
+			return true
+		}
+		xid, ok := unparen(rs.X).(*ast.Ident)
+		if !ok || info.ObjectOf(xid) != nodesParam || len(rs.Body.List) != 1 {
+			return true
+		}
+		as, ok := rs.Body.List[0].(*ast.AssignStmt)
+		if !ok || len(as.Lhs) != 1 {
+			return true
+		}
+		if ix, ok := unparen(as.Lhs[0]).(*ast.IndexExpr); ok {
+			if mid, ok := unparen(ix.X).(*ast.Ident); ok && isNodeSet(info.ObjectOf(mid)) && types.ExprString(as.Rhs[0]) == "true" {
+				batch[info.ObjectOf(mid)] = true
+			}
+		}
+		return true
+	})
+	// the loop over the dependencies of a candidate and its blocking conditions
+	nLoops := 0
+	ast.Inspect(fi.Decl.Body, func(n ast.Node) bool {
+		rs, ok := n.(*ast.RangeStmt)
+		if !ok {
+			return true
+		}
+		ix, ok := unparen(rs.X).(*ast.IndexExpr)
+		if !ok {
+			return true
+		}
+		if m, ok := info.TypeOf(ix.X).Underlying().(*types.Map); !ok || types.TypeString(m.Elem(), nil) != "[]*github.com/traefik/yaegi/interp.node" {
+			return true
+		}
+		nLoops++
+		var dep types.Object
+		if id, ok := rs.Value.(*ast.Ident); ok {
+			dep = info.ObjectOf(id)
+		}
+		restricted := false
+		nConds := 0
+		ast.Inspect(rs.Body, func(m ast.Node) bool {
+			ifs, ok := m.(*ast.IfStmt)
+			if !ok {
+				return true
+			}
+			nConds++
+			ast.Inspect(ifs.Cond, func(k ast.Node) bool {
+				if kx, ok := k.(*ast.IndexExpr); ok {
+					if mid, ok := unparen(kx.X).(*ast.Ident); ok && batch[info.ObjectOf(mid)] {
+						if did, ok := unparen(kx.Index).(*ast.Ident); ok && info.ObjectOf(did) == dep {
+							restricted = true
+						}
+					}
+				}
+				return true
+			})
+			return true
+		})
+		r.Check(restricted && nConds > 0, rule, fmt.Sprintf("genGlobalVarDecl/readiness#%d/batch-only", nLoops), ic.pos(rs.Pos()), "a variable waits only for dependencies that belong to the list being ordered",
+			"the readiness test of genGlobalVarDecl waits for every dependency, also for package variables that are not in the list being ordered (declared and initialised by an earlier evaluation): var b = a + 1 evaluated after var a = 1 fails with 'variable definition loop', so feeding declarations piecewise differs from evaluating them whole")
+		return true
+	})
+	if nLoops == 0 {
+		r.Errorf("%s: the loop over a candidate's dependencies (range deps[n]) was not found in genGlobalVarDecl", rule)
+	}
 }
